@@ -19,8 +19,70 @@ EXPLANATION = (
     "resumed run with the uncrashed run (two-run equivalence over histories).")
 
 
+def _null_columns(ctx):
+    """The sweep computes with stored values (`row["updated"] > old`,
+    `now - row["updated"]`).  Every committed row must therefore carry a value
+    in such a column: each INSERT into the table binds it (to something other
+    than None), or the schema gives it NOT NULL / a default."""
+    from ..events import each_event, construct_of
+    from ..terms import walk, strip_wrappers
+    model = ctx.model
+    interp = model.interp
+    ctx.rule("R10.null", "columns the sweep computes with are bound by every INSERT into "
+             "their table")
+    chan = ctx.repo.channel_schema()
+    used = {}
+
+    def note(t, e):
+        for x in walk(t):
+            if x[0] in ("cmp", "binop") and x[1] in ("<", ">", "<=", ">=", "-", "+", "//", "*"):
+                for side in x[2:4]:
+                    if isinstance(side, tuple) and side[0] == "sub" and \
+                            side[2][0] == "const" and isinstance(side[2][1], str):
+                        base = side[1]
+                        rows = None
+                        if base[0] == "elem":
+                            rows = strip_wrappers(base[1])
+                        elif base[0] == "row":
+                            rows = base
+                        if rows is not None and rows[0] in ("rows", "row"):
+                            st = interp.sql_sites.get(rows[1])
+                            if st is not None and st.kind == "select" and st.table in chan.tables:
+                                used.setdefault((st.table, side[2][1]), e)
+    for p in model.paths("timer"):
+        for e, _ in all_events(p):
+            for (t, b, site) in e.get("pc", ()):
+                note(t, e)
+            if e["k"] == "sql":
+                for v in e["params"]:
+                    note(v, e)
+    n = 0
+    for (table, col), ev in sorted(used.items()):
+        cdef = chan.tables[table].col(col)
+        if cdef is None or cdef.get("notnull") or cdef.get("pk"):
+            continue
+        seen = set()
+        for p, e, loops in each_event(model, model.runtime_entries(), ("sql",)):
+            if e["db"] != "chan" or e["stmt"].kind != "insert" or e["stmt"].table != table:
+                continue
+            if e["site"] in seen:
+                continue
+            seen.add(e["site"])
+            n += 1
+            v = e["binds"]["set"].get(col)
+            ok = v is not None and v != ("const", None)
+            ctx.ob("R10.null", "%s binds `%s`" % (construct_of(e), col), ok, e,
+                   "" if ok else "a `%s` row is committed with `%s` NULL; if the process "
+                   "dies before a later statement fills it in, the sweep computes with NULL "
+                   "(%s) and raises on every run" % (table, col, "%s:%d" % ev["site"][:2]))
+    ctx.require("R10.null", n, 1, "INSERTs into tables whose columns the sweep computes with")
+
+
 def run(ctx):
     model = ctx.model
+    _null_columns(ctx)
+    shared.r_durable(ctx, "R10.durable", ("chan", "usage"),
+                     "an acknowledged command whose effect a crash loses is not re-sent by the client: the stored state diverges from the crash-free one")
     ctx.rule("R10.fk", "every transaction is FK-closed (E3 insert side and delete side)")
     ctx.rule("R10.dup", "every INSERT into a keyed table is in the absent branch of a "
              "guard select keyed exactly by the key")
